@@ -52,7 +52,8 @@ Shm *g_shm = nullptr;
 
 struct TCtx {
   bool started = false, finished = false, body_done = false;
-  bool wantother = false;  // yielded inside a QUIESCE wait: let somebody else run if anybody can
+  bool wantother = false;  // yielded inside a QUIESCE wait / long spin: let somebody else run if anybody can
+  int spinrow = 0;         // spin hints in a row while nobody else ran (a spin loop that changes state never "blocks")
   int spin = 0;           // consecutive unchanged spin markers
   int ro_run = 0;         // consecutive read-only operations while nothing changed
   uint64_t mark_gw = 0;   // global write count at the last marker / own write
@@ -320,7 +321,7 @@ void WaitOthersQuiet()
   int me = tl_self;
   if (me <= 0) return;
   int rounds = 0;
-  while (!OthersQuiet() && rounds++ < 4000) {
+  while (!OthersQuiet() && rounds++ < 60) {  // (a waiter whose loop keeps changing state never counts as blocked: go on after a while)
     g_t[me].wantother = true;
     YieldToController(me);
   }
@@ -508,6 +509,7 @@ const char *StatusName(uint32_t s, int sig)
     s.enabled = enabled;
     s.flags = (g_t[c].spin > 0 || g_t[c].ro_run >= kRoNoBranch || g_nobranch || g_t[c].wantother) ? 1 : 0;
     g_t[c].wantother = false;
+    if (c != last) g_t[c].spinrow = 0;
     g_shm->nsteps = step + 1;
     SetCurrent(c);
     WaitCurrent(0);
@@ -782,6 +784,9 @@ void SpinHint(int) noexcept
   int me = tl_self;
   if (me <= 0 || !g_in_child) return;
   TCtx &t = g_t[me];
+  // fairness: a waiter whose loop keeps changing shared state (and therefore never counts as blocked) must not starve the
+  // thread it is waiting for under the "continue the running thread" policy
+  if (++t.spinrow >= 8) t.wantother = true;
   if (t.mark_gw == g_gw) {
     if (++t.spin >= kBlockAfter) { t.blocked = true; t.blocked_gw = g_gw; }
   } else {
